@@ -200,3 +200,27 @@ Definition late (st : cl_state) : nat * nat :=
 (* everything about a state except the two flags "shutdown was closed" and "closed by somebody else" *)
 Definition side_view (x : cl_side) := (s_reads x, s_writes x, s_out x, s_in x, s_closes x).
 Definition view (st : cl_state) := (side_view (side0 st), side_view (side1 st), dir0 st, dir1 st, mn st, at_ret st).
+
+(* ---------- the same machine WITHOUT the atomic wake ----------
+   [wake] above terminates the copiers parked on a conn in the very step that closes it. Go does not promise that: Close
+   makes the pending Read / Write fail, the copier goroutine returns from io.Copy some time later, and copyLoop returns
+   without joining the copiers. Here a Close only marks the conn closed; a copier parked on it stays parked until ITS OWN
+   next step, which then fails at once ([do_read] / [do_write] test [closed] first) without moving a byte. Used to state
+   what the code guarantees at copyLoop's return (Proofs/CopyLoopLazyProofs.v). *)
+Definition do_main_lazy (st : cl_state) : cl_state :=
+  match mn st with
+  | Closing1 => set_side false (side_close (side0 st)) (set_mn Closing2 st)
+  | Closing2 =>
+      set_at_ret (Some (length (s_in (side0 st)), length (s_in (side1 st))))
+        (set_side true (side_close (side1 st)) (set_mn Returned st))
+  | _ => st
+  end.
+
+Definition cl_do_lazy (st : cl_state) (x : cl_step) : cl_state :=
+  match x with
+  | RelMain => do_main_lazy st
+  | ExtClose s => set_side s (side_ext (get_side s st)) st
+  | _ => cl_do st x
+  end.
+
+Definition cl_run_lazy (sched : list cl_step) (st : cl_state) : cl_state := fold_left cl_do_lazy sched st.
